@@ -218,3 +218,172 @@ Proof.
     + inversion Es; subst. eapply IH; [|exact Er]. destruct Hst as [Hb _]. split; [exact Hb|].
       cbn [FR.d_max]. unfold FR.wrap64, FR.two64. lia.
 Qed.
+
+(* ================================================================== reading what was decoded *)
+From CV Require Import Value.EqualM Value.EqualSafe Value.CanonM Value.CanonSafe Core.Builder Core.CopySafe.
+
+(* the repaired configuration of the reader *)
+Definition repaired (c : config) (fx : fixes) : Prop :=
+  cfg_strict c = true /\ cfg_root c = true /\ fx_bit fx = true.
+
+(* every in-domain read-side API call sequence on [segs] is panic-free and only creates
+   well-formed handles *)
+Definition read_safe (c : config) (fx : fixes) (m : segs) : Prop :=
+  forall ops, run_dom c fx m (init_state c) ops = true ->
+    Forall oval_ok (run_ops c fx m ops) /\ state_wf m (fst (run c fx m (init_state c) ops)).
+
+Lemma msg_ok_read_safe c fx m : repaired c fx -> msg_ok m -> read_safe c fx m.
+Proof. intros (H1 & H2 & H3) Hm ops Hd. apply run_safe; assumption. Qed.
+
+(* (2) Unmarshal never panics and everything read from its result is safe *)
+Theorem unmarshal_then_read_safe b c fx : bytes_ok b -> repaired c fx ->
+  match FR.unmarshal b with
+  | FR.Ok segs => msg_ok segs /\ read_safe c fx segs
+  | FR.Err _ => True
+  | FR.Panic => False
+  end.
+Proof.
+  intros Hb Hr. pose proof (unmarshal_nopanic b Hb) as NP.
+  destruct (FR.unmarshal b) as [segs|e|] eqn:E; [|exact I|congruence].
+  pose proof (unmarshal_msg_ok b segs Hb E) as Hm. split; [exact Hm|apply msg_ok_read_safe; assumption].
+Qed.
+
+Theorem unmarshal_packed_then_read_safe p c fx : bytes_ok p -> repaired c fx ->
+  match FP.unmarshal_packed p with
+  | FR.Ok segs => msg_ok segs /\ read_safe c fx segs
+  | FR.Err _ => True
+  | FR.Panic => False
+  end.
+Proof.
+  intros Hb Hr. pose proof (unmarshal_packed_nopanic p Hb) as NP.
+  destruct (FP.unmarshal_packed p) as [segs|e|] eqn:E; [|exact I|congruence].
+  pose proof (unmarshal_packed_msg_ok p segs Hb E) as Hm. split; [exact Hm|apply msg_ok_read_safe; assumption].
+Qed.
+
+(* the streaming Decoder on any byte stream in any chunking, any history of Decode / ReuseBuffer /
+   MaxMessageSize: no Decode panics, every decoded message is msg_ok and safe to read *)
+Theorem decode_then_read_safe cs fin hc bc ru mx ops c fx st' outs :
+  bytes_ok (concat cs) -> 0 <= mx < FR.two64 -> repaired c fx ->
+  FR.run_history (FR.mkD (FR.mkReader cs fin) hc bc ru mx) ops = (st', outs) ->
+  Forall (fun ol => fst ol <> FR.DPanic /\
+                    forall segs, fst ol = FR.DMsg segs -> msg_ok segs /\ read_safe c fx segs) outs.
+Proof.
+  intros Hb Hmx Hr E.
+  pose proof (decode_history_msg_ok ops (FR.mkD (FR.mkReader cs fin) hc bc ru mx) st' outs (conj Hb Hmx) E) as H.
+  eapply Forall_impl; [|exact H]. cbv beta. intros ol [NP Hm]. split; [exact NP|].
+  intros segs Es. specialize (Hm segs Es). split; [exact Hm|apply msg_ok_read_safe; assumption].
+Qed.
+
+(* ================================================================== the consumers, from raw bytes *)
+Lemma root_shape c m rl p : fst (root c m rl) = Ok p -> shape_ok p.
+Proof.
+  unfold root. destruct (lookup_segment m 0); try discriminate.
+  destruct (negb _); [destruct (cfg_root c); discriminate|]. apply readPtr_shape.
+Qed.
+
+(* the harness selector (root, or field i of the root struct) hands out a well-formed pointer *)
+Lemma select_safe c m rl s : msg_ok m -> cfg_strict c = true -> cfg_root c = true -> 0 <= rl ->
+  (match s with SelField i => 0 <= i | SelRoot => True end) ->
+  res_sat (fst (select c m rl s)) (wf_ptr m) /\ 0 <= snd (select c m rl s) <= rl.
+Proof.
+  intros Hm Hs Hr Hrl Hi. unfold select.
+  pose proof (root_safe c m rl Hm Hr) as R. pose proof (root_charge c m rl Hrl) as [RC _].
+  destruct s as [|i].
+  - split; [eapply res_sat_weaken; [exact R|auto]|exact RC].
+  - destruct (root c m rl) as [r rl1]. cbn [fst snd] in *.
+    destruct r as [p| |]; cbn [res_sat fst snd] in *; [|split; [exact I|lia]|destruct R].
+    pose proof (struct_ptr_safe c m rl1 (as_struct p) i Hm (wf_struct_as_struct m p (R Hs)) Hi) as S.
+    pose proof (struct_ptr_charge c m rl1 (as_struct p) i ltac:(lia)) as [SC _].
+    split; [eapply res_sat_weaken; [exact S|auto]|lia].
+Qed.
+
+(* capnp.Equal on the roots (or root fields) of two messages obtained from raw bytes *)
+Theorem equal_from_bytes_safe b1 b2 sa sb fuel ca cb fx capsa capsb same sela selb :
+  bytes_ok b1 -> bytes_ok b2 -> FR.unmarshal b1 = FR.Ok sa -> FR.unmarshal b2 = FR.Ok sb ->
+  cfg_strict ca = true -> cfg_root ca = true -> cfg_strict cb = true -> cfg_root cb = true ->
+  0 <= cfg_T ca -> 0 <= cfg_T cb ->
+  (match sela with SelField i => 0 <= i | SelRoot => True end) ->
+  (match selb with SelField i => 0 <= i | SelRoot => True end) ->
+  fst (fst (run_equal fuel ca cb fx sa capsa sb capsb same sela selb)) <> EPanic.
+Proof.
+  intros Hb1 Hb2 E1 E2 Sa Ra Sb Rb Ta Tb Hia Hib.
+  pose proof (unmarshal_msg_ok b1 sa Hb1 E1) as Ma. pose proof (unmarshal_msg_ok b2 sb Hb2 E2) as Mb.
+  unfold run_equal.
+  destruct (select_safe ca sa (init_rlimit ca) sela Ma Sa Ra (init_rlimit_nonneg ca Ta) Hia) as [P1 P2].
+  destruct (select ca sa (init_rlimit ca) sela) as [rp rla]. cbn [fst snd] in *.
+  assert (res_sat (fst (if same then select ca sa rla selb else select cb sb (init_rlimit cb) selb))
+                  (wf_ptr (if same then sa else sb)) /\
+          0 <= snd (if same then select ca sa rla selb else select cb sb (init_rlimit cb) selb)) as [Q1 Q2].
+  { destruct same.
+    - destruct (select_safe ca sa rla selb Ma Sa Ra ltac:(lia) Hib) as [A B]. split; [exact A|lia].
+    - destruct (select_safe cb sb (init_rlimit cb) selb Mb Sb Rb (init_rlimit_nonneg cb Tb) Hib) as [A B]. split; [exact A|lia]. }
+  destruct (if same then select ca sa rla selb else select cb sb (init_rlimit cb) selb) as [rq rlb]. cbn [fst snd] in *.
+  destruct rp as [p| |]; cbn [res_sat] in P1; [|destruct rq; cbn; try discriminate; destruct Q1|destruct P1].
+  destruct rq as [q| |]; cbn [res_sat] in Q1; [|cbn; discriminate|destruct Q1].
+  set (x := mkEC sa capsa sb capsb same).
+  assert (ectx_ok x) as Hx.
+  { split; [rewrite segs_of_SA; exact Ma|]. unfold segs_of, on_a, x. cbn [ec_same ec_segs_a ec_segs_b].
+    destruct same; cbn [orb]; assumption. }
+  assert (wf_ptr (segs_of x SB) q) as Hq.
+  { unfold segs_of, on_a, x. cbn [ec_same ec_segs_a ec_segs_b]. destruct same; cbn [orb]; exact Q1. }
+  assert (lims_nonneg (if same then (rlb, 0) else (rla, rlb))) as Hw
+    by (destruct same; unfold lims_nonneg; cbn [fst snd]; lia).
+  pose proof (equal_m_good ca fx x Hx Sa fuel _ p q ltac:(rewrite segs_of_SA; exact P1) Hq Hw) as [G _].
+  destruct (equal_m fuel ca fx x _ p q) as [r w']. cbn [fst] in *. exact G.
+Qed.
+
+(* capnp.Canonicalize on the root struct (or a root field) of a message obtained from raw bytes *)
+Theorem canon_from_bytes_safe b segs fuel c fx sel :
+  bytes_ok b -> FR.unmarshal b = FR.Ok segs ->
+  cfg_strict c = true -> cfg_root c = true -> cx_complist fx = true -> 0 <= cfg_T c ->
+  (match sel with SelField i => 0 <= i | SelRoot => True end) ->
+  run_canon fuel c fx segs sel <> KPanic.
+Proof.
+  intros Hb E Hs Hr Hc HT Hi. pose proof (unmarshal_msg_ok b segs Hb E) as Hm. unfold run_canon.
+  destruct (select_safe c segs (init_rlimit c) sel Hm Hs Hr (init_rlimit_nonneg c HT) Hi) as [P1 P2].
+  destruct (select c segs (init_rlimit c) sel) as [rp rl]. cbn [fst snd] in *.
+  destruct rp as [p| |]; cbn [res_sat] in P1; [|discriminate|destruct P1].
+  apply (canonicalize_safe c fx fuel segs rl (as_struct p) Hs Hc Hm (wf_struct_as_struct segs p P1)). lia.
+Qed.
+
+(* deep copy into a fresh message (Message.SetRoot across messages) of the root of a message
+   obtained from raw bytes *)
+Definition copy_root (fuel : nat) (c : config) (segs : segs) : res world :=
+  match root c segs (init_rlimit c) with
+  | (Ok p, rl) =>
+    match new_message ASingle [] 0 with
+    | Ok m0 => set_root fuel (mkW m0 segs rl) InSrc p
+    | _ => Err
+    end
+  | (Err, _) => Err
+  | (Panic, _) => Panic
+  end.
+
+Lemma new_single_region : exists m0, new_message ASingle [] 0 = Ok m0 /\ dok m0 /\ region_ok m0 0 0 8.
+Proof.
+  eexists. split; [vm_compute; reflexivity|]. split.
+  - split; [split|].
+    + repeat constructor; cbn; lia.
+    + intros _. reflexivity.
+    + intros i. unfold BuilderFacts.mem, get_seg. cbn. destruct (Z.to_nat i) as [|[|n]]; cbn; unfold maxSegmentSize; lia.
+  - unfold region_ok. cbn. lia.
+Qed.
+
+Theorem copy_from_bytes_safe b segs fuel c :
+  bytes_ok b -> FR.unmarshal b = FR.Ok segs ->
+  cfg_strict c = true -> cfg_root c = true -> 0 <= cfg_T c ->
+  copy_root fuel c segs <> Panic.
+Proof.
+  intros Hb E Hs Hr HT. pose proof (unmarshal_msg_ok b segs Hb E) as Hm. unfold copy_root.
+  pose proof (root_safe c segs (init_rlimit c) Hm Hr) as R.
+  pose proof (root_charge c segs (init_rlimit c) (init_rlimit_nonneg c HT)) as [[RC _] _].
+  pose proof (root_shape c segs (init_rlimit c)) as SH.
+  destruct (root c segs (init_rlimit c)) as [r rl]. cbn [fst snd] in *.
+  destruct r as [p| |]; cbn [res_sat] in R; [|discriminate|destruct R].
+  destruct new_single_region as (m0 & -> & D0 & R0).
+  unfold set_root, set_root_gen. cbv zeta. cbn [w_dst].
+  destruct (bm_segs m0) as [|s0 rest]; [discriminate|].
+  destruct (negb _); [discriminate|].
+  pose proof (write_ptr_safe fuel (mkW m0 segs rl) 0 0 p false D0 Hm RC R0 (R Hs) (SH p eq_refl)) as W.
+  destruct (write_ptr fuel true (mkW m0 segs rl) 0 0 InSrc p false); [discriminate|discriminate|destruct W].
+Qed.
